@@ -46,6 +46,19 @@ def check(tier, seed):
                 res.violation('C03: an over-length header hid the frame that starts after its 6 bytes',
                               {'property': 'C03', 'input': desc, 'expected': exp, 'implementation_says': impl}, 'c03-over|' + C.hexs(s)[:80])
             cases.append(Case('ubx-parser-overlength', G.ubx_cmd([(6, 1)], ops), impl, desc, kind='overlength'))
+        # filter membership must be exact: valid frames whose class/id is NEAR the filter's (shifted, swapped, neighbour ...)
+        for c, i in [(0x0a, 4), (5, 1), (5, 0), (6, 0x8b), (0x13, 0x60), (1, 3)] + [(rng.randrange(1, 64), rng.randrange(2, 250)) for _ in range(6 if tier == 'quick' else 200)]:
+            near = G.near_cids(c, i)
+            s = b''.join(G.frame(cc, ii, bytes([cc, ii])) for cc, ii in near) + G.frame(c, i, b'\x01')
+            filt = [(c, i)]
+            ops = [('P', s)]
+            impl = G.impl_ubx(filt, ops)
+            toks = impl.split('q=[')[1].split(']')[0].split()
+            why = G.sound_c03(s, filt, toks)
+            desc = {'stream_hex': C.hexs(s), 'filter': filt, 'kind': 'near-cids', 'chunking': 'whole'}
+            if why:
+                res.violation('C03 oracle: ' + why, {'property': 'C03', 'input': desc, 'implementation_says': impl[:1500], 'reason': why}, f'c03-near|{c}|{i}')
+            cases.append(Case('ubx-parser-near-cids', G.ubx_cmd(filt, ops), impl, desc, kind='near-cids'))
         res.compare(cases)
         res.oblige('correspondence UbxParser on raw streams (Tie A)', not res.disagreements)
         res.oblige('independent C03 occurrence matcher', not res.violations)
